@@ -56,7 +56,7 @@ def main():
         r = c.tlc("QValue", "QValue_mid", timeout=3400, xmx="24g", simulate=200000, depth=12)
         c.expect_holds(r, "QValue_mid (simulation)")
 
-    nh, ns = (600, 120) if c.thorough else (120, 80)
+    nh, ns = (600, 120) if c.thorough else (300, 100)
     trace = os.path.join(c.out, "value.ndjson")
     rc, out, err = c.run([asan, "record", str(c.seed), str(nh), str(ns), trace], timeout=1500)
     if c.harness_ok("value-record", rc, out, err, {"argv": [asan, "record", c.seed, nh, ns]}):
